@@ -13,6 +13,9 @@
   content of the main screen                         `World.mainScreen : Nat` (version: bumped by every write
                                                      that lands on the main screen)
 
+  Re-using one context-manager OBJECT is entering the same `Ctx` again: everything `__enter__` stores on the object
+  is overwritten at every entry (`Saved` is per entry), so `.nest c b1 (.op env (.nest c b2 .done))` is
+  "use, somebody changes the terminal, use the same object again".
   A body is a tree: operations, nested contexts, and `raise` (an exception truncates the body there).
   Every operation is atomic: exceptions happen at operation boundaries, plus inside a request at the blocked
   `select` (`ReqOutcome.keyboardInterrupt`) and in `find_key` after the read (`ReqOutcome.raisesAfterRead`).
@@ -30,9 +33,13 @@ structure TtyOps (A : Type) where
   cbreak : A → A
   noStartStop : A → A
   nonblock : Nat → Nat
+  envTty : Nat → A → A        -- somebody else changes the tty attributes (stty, another library) - change #k
+  envFl : Nat → Nat → Nat     -- ... or the file status flags
 
 inductive Handler where
-  | dflt | ign | user (n : Nat) | input (id : Nat)     -- `input id`: bound method sigint_handler of Input #id
+  | dflt | ign | sigDfl | user (n : Nat) | input (id : Nat)
+  -- dflt = signal.default_int_handler, ign = SIG_IGN, sigDfl = SIG_DFL (an IntEnum with value 0: falsy!),
+  -- `input id`: bound method sigint_handler of the Input entered as #id
   deriving DecidableEq, Repr
 
 structure World (A : Type) where
@@ -84,6 +91,9 @@ inductive Op where
   | render
   | mkTrigger                  -- event_trigger / scheduled_event_trigger: no OS effect
   | mkThreadsafeTrigger        -- threadsafe_event_trigger: os.pipe()
+  | envTty (k : Nat)           -- the environment changes the tty attributes / status flags / SIGINT handler
+  | envFl (k : Nat)            --   (between two uses of a context manager; not something curtsies does)
+  | envSigint (h : Handler)
   deriving DecidableEq, Repr
 
 inductive Body (A : Type) where
@@ -192,6 +202,9 @@ def doOp (T : TtyOps A) (main : Bool) (stack : List (Ctx A × Saved A)) (o : Op)
     match innerInput stack with
     | some _ => ({ w with fds := w.nextFd :: (w.nextFd + 1) :: w.fds, nextFd := w.nextFd + 2 }, false)
     | none => (w, false)
+  | .envTty k => ({ w with tty := T.envTty k w.tty }, false)
+  | .envFl k => ({ w with fl := T.envFl k w.fl }, false)
+  | .envSigint h => ({ w with sigint := h }, false)
 
 /-- observable snapshot after each step (what the harness can see) -/
 structure Obs (A : Type) where
